@@ -93,13 +93,15 @@ def parse(out):
     return r
 
 
-def run_harness(name, timeout_s, log_dir, extra=()):
+def run_harness(name, timeout_s, log_dir, extra=(), cbmc_args=(), vmem_kb=VMEM_KB):
     os.makedirs(log_dir, exist_ok=True)
     log_path = os.path.join(log_dir, name.replace("::", ".") + ".log")
     cmd = ["cargo", "kani", "--target-dir", TARGET] + KANI_FLAGS + \
           ["--harness", name, "--exact"] + list(extra)
+    if cbmc_args:
+        cmd += ["-Z", "unstable-options", "--cbmc-args"] + list(cbmc_args)
     sh = "ulimit -v %d; exec timeout %d %s" % (
-        VMEM_KB, timeout_s, " ".join("'%s'" % c for c in cmd))
+        vmem_kb, timeout_s, " ".join("'%s'" % c for c in cmd))
     t0 = time.time()
     with open(log_path, "w") as log:
         p = subprocess.run(["bash", "-c", sh], cwd=KANI_DIR, env=ENV, stdout=log,
@@ -115,11 +117,14 @@ def run_harness(name, timeout_s, log_dir, extra=()):
     return r
 
 
-def run_many(names, timeout_s, log_dir, jobs):
+def run_many(names, timeout_s, log_dir, jobs, cbmc_args=None):
+    """cbmc_args: optional {harness: [extra cbmc flags]}"""
     os.makedirs(log_dir, exist_ok=True)
     res = {}
+    cbmc_args = cbmc_args or {}
     with cf.ThreadPoolExecutor(max_workers=max(1, jobs)) as ex:
-        futs = {ex.submit(run_harness, n, timeout_s, log_dir): n for n in names}
+        futs = {ex.submit(run_harness, n, timeout_s, log_dir, (), cbmc_args.get(n, ())): n
+                for n in names}
         for f in cf.as_completed(futs):
             res[futs[f]] = f.result()
     return res
@@ -128,10 +133,11 @@ def run_many(names, timeout_s, log_dir, jobs):
 PLAYBACK_RE = re.compile(r"```\s*\n(.*?)```", re.S)
 
 
-def concrete_playback(name, timeout_s, log_dir):
+def concrete_playback(name, timeout_s, log_dir, cbmc_args=()):
     """ask Kani for the counterexample as a Rust unit test (text)"""
     r = run_harness(name, timeout_s, log_dir + "/playback",
-                    extra=["-Z", "concrete-playback", "--concrete-playback=print"])
+                    extra=["-Z", "concrete-playback", "--concrete-playback=print"],
+                    cbmc_args=cbmc_args, vmem_kb=40_000_000)
     out = open(r["log"], errors="replace").read()
     tests = PLAYBACK_RE.findall(out)
     return tests, r
